@@ -19,6 +19,7 @@ import common as C
 # a false alarm); TOL = 1e-12 is > 1000 ulp.  Outputs of covariance functions / whole pipelines: 1e-9 relative.
 TOL = 1e-12
 RTOL_PIPE = 1e-9
+SEEN = set()   # one replay per probe name
 
 
 def agree(a, b, scale=1.0, tol=TOL):
@@ -68,7 +69,7 @@ def as_arg(a):
 def gen_cases(rng, tier):
     """(dim, angles, anis): every input length from 0 to needed+2 for both lists, dims 1..4 (..6 thorough)"""
     dims = (1, 2, 3, 4, 5, 6) if tier == "thorough" else (1, 2, 3, 4)
-    reps = 4 if tier == "thorough" else 1
+    reps = 12 if tier == "thorough" else 3
     cases = []
     for dim in dims:
         noa = dim * (dim - 1) // 2
@@ -220,10 +221,12 @@ def Rx(c):
 def matrix_probes(ctx, rng):
     from gstools.tools import geometric as G
     dims = range(1, 9) if ctx.tier == "thorough" else range(1, 7)
-    reps = 40 if ctx.tier == "thorough" else 8
+    reps = 300 if ctx.tier == "thorough" else 40
 
     def viol(name, what, case):
-        ctx.violation("probe: " + name, what, case, key="probe:" + name)
+        if name not in SEEN:
+            SEEN.add(name)
+            ctx.violation("probe: " + name, what, case, key="probe:" + name)
 
     for dim in dims:
         noa = dim * (dim - 1) // 2
@@ -305,10 +308,11 @@ MODELS_ALL = ["Gaussian", "Exponential", "Matern", "Integral", "Stable", "Ration
               "Spherical", "HyperSpherical", "SuperSpherical", "JBessel", "TPLGaussian", "TPLExponential", "TPLStable",
               "TPLSimple"]
 SRF_MODELS = ["Gaussian", "Exponential", "Matern", "Integral"]   # analytic spectrum sampling (no MCMC), cheap
+SRF_MODELS_MCMC = ["Stable", "Spherical"]                        # MCMC mode sampling (slow): thorough tier only
 
 
-def make_models(gs, name, dim, rng, temporal=False):
-    """(anisotropic rotated model, isotropic unrotated twin)"""
+def make_models(gs, name, dim, rng, temporal=False, kind=0):
+    """(anisotropic rotated model, isotropic unrotated twin); kind 1: ratios only, kind 2: rotation only"""
     noa = dim * (dim - 1) // 2
     kw = dict(dim=dim, var=float(10 ** rng.uniform(-1, 1)), len_scale=float(10 ** rng.uniform(-0.5, 1)),
               nugget=float(rng.choice([0.0, 0.1])))
@@ -316,6 +320,10 @@ def make_models(gs, name, dim, rng, temporal=False):
     anis = gen_anis(rng, dim - 1, wide=False)
     angles = gen_angles(rng, noa, noa)
     angles[np.abs(angles) > 100] = 1.0
+    if kind == 1:
+        angles[:] = 0.0
+    elif kind == 2:
+        anis[:] = 1.0
     m = cls(anis=anis if dim > 1 else 1.0, angles=angles if noa else 0.0, temporal=temporal, **kw)
     iso = cls(temporal=temporal, **kw)
     return m, iso
@@ -332,10 +340,12 @@ def model_probes(ctx, rng):
     warnings.simplefilter("ignore")
 
     def viol(name, what, case):
-        ctx.violation("probe: " + name, what, case, key="probe:" + name)
+        if name not in SEEN:
+            SEEN.add(name)
+            ctx.violation("probe: " + name, what, case, key="probe:" + name)
 
     names = [n for n in MODELS_ALL if hasattr(gs, n)]
-    reps = 3 if ctx.tier == "thorough" else 1
+    reps = 8 if ctx.tier == "thorough" else 2
     for name in names:
         for dim in (1, 2, 3, 4):
             if name == "Circular" and dim > 2 or name == "Spherical" and dim > 3 or name == "Linear" and dim > 1:
@@ -380,16 +390,21 @@ def pipeline_probes(ctx, rng):
     warnings.simplefilter("ignore")
 
     def viol(name, what, case):
-        ctx.violation("probe: " + name, what, case, key="probe:" + name)
+        if name not in SEEN:
+            SEEN.add(name)
+            ctx.violation("probe: " + name, what, case, key="probe:" + name)
 
-    reps = 3 if ctx.tier == "thorough" else 1
+    reps = 8 if ctx.tier == "thorough" else 2
     dims = (1, 2, 3, 4) if ctx.tier == "thorough" else (2, 3)
+    srf_models = SRF_MODELS + (SRF_MODELS_MCMC if ctx.tier == "thorough" else [])
+    kinds = itertools.cycle([0, 1, 2, 0, 1])
     for rep in range(reps):
         for dim in dims:
-            for name in SRF_MODELS:
-                if not hasattr(gs, name):
+            for name in srf_models:
+                if not hasattr(gs, name) or (name in SRF_MODELS_MCMC and (rep > 0 or dim != 2)):
                     continue
-                m, iso = make_models(gs, name, dim, rng)
+                kind = next(kinds)
+                m, iso = make_models(gs, name, dim, rng, kind=kind)
                 seed = int(rng.integers(1, 2 ** 31 - 1))
                 n = 30
                 pos = rng.uniform(-5, 5, size=(dim, n)) * m.len_scale
@@ -397,7 +412,8 @@ def pipeline_probes(ctx, rng):
                 case = dict(model=name, dim=dim, var=m.var, len_scale=m.len_scale, nugget=m.nugget, anis=hexl(m.anis),
                             angles=hexl(m.angles), seed=seed, pos=hexl(pos))
                 amp = math.sqrt(m.sill)
-                ctx.count(("pipe", name, dim), hist=dict(pipeline="SRF/Krige/CondSRF", pipe_dim=dim))
+                ctx.count(("pipe", name, dim, kind), hist=dict(pipeline="SRF/Krige/CondSRF", pipe_dim=dim,
+                                                               pipe_kind=["anis+rotation", "anis only", "rotation only"][kind]))
                 try:
                     # --- SRF (randomization method), unstructured
                     f_a = gs.SRF(m, seed=seed, mode_no=64)(pos)
